@@ -178,6 +178,26 @@ func (c *Ctx) BvBin(op string, a, b *Term) *Term {
 			if y != 0 {
 				return c.BV(x%y, w)
 			}
+		case "bvsdiv":
+			if y != 0 {
+				sx, sy := sext(x, w), sext(y, w)
+				if !(sy == -1 && sx == -sx && sx != 0) {
+					return c.BV(uint64(sx/sy), w)
+				}
+			}
+		case "bvsrem":
+			if y != 0 {
+				sx, sy := sext(x, w), sext(y, w)
+				if sy != -1 {
+					return c.BV(uint64(sx%sy), w)
+				}
+				return c.BV(0, w)
+			}
+		case "bvashr":
+			if y >= uint64(w) {
+				y = uint64(w - 1)
+			}
+			return c.BV(uint64(sext(x, w)>>y), w)
 		}
 	}
 	if op == "bvadd" || op == "bvor" || op == "bvxor" {
